@@ -212,7 +212,7 @@ Proof.
     + assert (inv0 = inv').
       { assert (X : cget (d_invs d1) k = Some inv0) by (rewrite Ei0; apply cget_cset_same).
         rewrite Ei, cget_cset_same in X. congruence. }
-      subst inv0. destruct Ht0 as [(_ & Et)|(t0 & Hti & _ & Et & _)]; rewrite Et in Ht1; [exact Ht1|].
+      subst inv0. destruct Ht0 as [(_ & Et & _)|(t0 & Hti & _ & Et & _)]; rewrite Et in Ht1; [exact Ht1|].
       rewrite nget_nset in Ht1. destruct (N.eqb_spec t t0) as [->|]; [contradiction|exact Ht1].
     + assert (inv0 = inv').
       { assert (X : cget (d_invs d1) k = Some inv0) by (rewrite Ei0; apply cget_cset_same).
@@ -223,7 +223,7 @@ Qed.
 
 (** ** The kinds of step *)
 Definition call13 (r : realm) (x q : N) (opts : dict) (a : list value) (kw : dict) (out : list out) (r' : realm) : Prop :=
-  calm r out r' \/
+  (calm r out r' /\ noinv out) \/
   (exists y i rid det, out = [(y, RInvocation i rid det a kw)] /\ y <> meta_id /\ r_now r' = r_now r /\
      lookup r y <> None /\
      (call_first13 (r_now r) (r_dealer r) (r_dealer r') (x, q) (y, i) opts det \/
@@ -322,10 +322,13 @@ Proof.
     pose proof (lookup_ok_realm r (rw_meta_id r W)) as LOK.
     pose proof (nowrap_below k r I Hk) as NW.
     pose proof (call_13 (r_cfg r) (lookup r) (r_now r) (r_dealer r) s req opts proc args kw oracle Wd LOK NW) as CF.
+    pose proof (call_inv_facts (r_cfg r) (lookup r) (r_now r) (r_dealer r) s req opts proc args kw oracle Wd LOK NW) as CI.
     destruct (call _ _ _ _ _ _ _ _ _ _ _) as [d o|o|d1 callee' o] eqn:Ecall.
-    + left. cbn [fst snd]. destruct CF as [C1 C2]. now apply calm_dealer.
+    + left. cbn [fst snd]. destruct CF as [C1 C2]. split; [now apply calm_dealer|apply (dq_noinv _ _ _ CI)].
     + left. assert (Q : calm r o r) by (split; [apply evo_refl|split; [exact CF|reflexivity]]).
-      specialize (LvQ r o W Q). destruct (leave r (s_id s)) as [r1 o1]. exact LvQ.
+      specialize (LvQ r o W Q). pose proof (leave_qstep r (s_id s)) as Lq.
+      destruct (leave r (s_id s)) as [r1 o1]. split; [exact LvQ|].
+      apply noinv_app; [exact CI|apply (qs_noinv _ _ _ Lq)].
     + destruct CF as (y & i & rid & det & Eo & Ey & Kind).
       destruct (call_invoked_wf r s req opts proc args kw oracle k d1 callee' o W I Hk Hs Ecall)
         as (W2 & J2 & _ & (rcv & invid & regid & det' & Eo' & Hrcv) & Hcl).
@@ -338,11 +341,13 @@ Proof.
       { assert (Ey' : y = rcv) by (rewrite Eo in Eo'; congruence). rewrite Ey'. exact Hrcv. }
       rewrite Eo. destruct (N.eq_dec y meta_id) as [Hm|Hm].
       * left. rewrite Hm in *.
+        pose proof (run_meta_invocation_meta_qstep r1 i rid det args kw oracle) as Mq.
         destruct (run_meta_13 r1 i rid det args kw oracle (k + 1) W2 J2 (Hcl _ _ _ _ _ _ Eo)) as [Q Hgone].
         destruct (run_meta_invocation_wf r1 [(meta_id, RInvocation i rid det args kw)] oracle (k + 1) W2 J2) as [W3 _].
         { intros rcv0 invid0 regid0 det0 args0 kw0 E0. assert (Ed0 : det0 = det) by congruence.
           rewrite Ed0. apply (Hcl _ _ _ _ _ _ Eo). }
         destruct (run_meta_invocation r1 _ oracle) as [r3 o3]. cbn [fst snd] in *.
+        split; [|apply (qs_noinv _ _ _ Mq)].
         destruct Q as (Q1 & Q2 & Q3). split; [|split; [exact Q2|congruence]].
         rewrite Ed in Q1. eapply (call_then_gone_evo (r_now r) (r_dealer r) d1 (r_dealer r3)); eauto.
         -- rewrite <- Ed. apply (wf_calls _ _ (rw_dealer r1 W2)).
@@ -449,7 +454,7 @@ Proof.
   - destruct (find_session (r_clients r) sid); [|destruct H as (_ & _ & ->); lia].
     destruct m; cbn [msg13] in H;
       try (destruct H as (_ & _ & ->); lia).
-    + destruct H as [(_ & _ & ->)|(y & i & rid & det & _ & _ & -> & _)]; lia.
+    + destruct H as [((_ & _ & ->) & _)|(y & i & rid & det & _ & _ & -> & _)]; lia.
     + destruct H as (-> & _). lia.
     + destruct H as (_ & -> & _). lia.
     + destruct H as (_ & -> & _). lia.
